@@ -284,7 +284,32 @@ def must_alloc_functions(prog, cg):
                 if not st:
                     bad.append(bid)
 
-            ex = PathExplorer(fn, transfer, None, at_exit, limit=20000)
+            # `if (cstr == NULL) return ...` on a C pointer parameter: callers hand such functions a real string;
+            # the exit behind that guard does not make the function a "may not allocate" one
+            cptrs = {fn.vars[v]["n"] for v in fn.params if "*" in (fn.var_type(v) or "") and "sexp_struct" not in (fn.var_type(v) or "")}
+
+            def branch(bid, si, succ, st, fn=fn, cptrs=cptrs):
+                b = fn.blocks[bid]
+                if b.cond is None or len(b.succs) != 2 or not cptrs:
+                    return st
+                c = fn.strip(b.cond)
+                nd = fn.nodes[c]
+                neg = False
+                if nd["k"] == "un" and nd["o"] == "!":
+                    c = fn.strip(nd["c"][0]); nd = fn.nodes[c]; neg = True
+                null_edge = None
+                if nd["k"] == "ref" and fn.txt(c) in cptrs:
+                    null_edge = 0 if neg else 1                 # !p true / p false
+                elif nd["k"] == "bin" and nd["o"] in ("==", "!="):
+                    for a, bb in ((0, 1), (1, 0)):
+                        if fn.txt(fn.strip(nd["c"][a])) in cptrs and fn.const_val(nd["c"][bb]) == 0:
+                            e = 0 if nd["o"] == "==" else 1
+                            null_edge = (1 - e) if neg else e
+                if null_edge is not None and si == null_edge:
+                    return None
+                return st
+
+            ex = PathExplorer(fn, transfer, branch, at_exit, limit=20000)
             ex.run(False)
             if not bad and not ex.truncated:
                 must.add(fn.name)
